@@ -547,7 +547,9 @@ class SVGLexicalParser:
                         self._flag(),
                         self._rcoord(),
                     )
-                    if sweep is None:
+                    if rotation is None or sweep is None:
+                        raise ValueError
+                    if self.parser.current_point is None:
                         raise ValueError
                     if coord is None:
                         coord = self.inline_close
@@ -564,6 +566,10 @@ class SVGLexicalParser:
                         self._flag(),
                         self._coord(),
                     )
+                    if rotation is None or sweep is None:
+                        raise ValueError
+                    if self.parser.current_point is None:
+                        raise ValueError
                     if coord is None:
                         coord = self.inline_close
                         if coord is None:
